@@ -265,7 +265,7 @@ def run_case(case, rec, mon=None):
         objs = [getattr(F, n)() for n in AREA]
         for width in range(case["w0"], case["w1"]):
             for o in objs:
-                o.get_impulse_response(width)
+                o.get_impulse_response(width) if width % 2 else o.get_impulse_response(width=width)
                 if width % 3 == 0:
                     # the same window object asked again (one window shared by two computers), also after another width
                     o.get_impulse_response(width)
